@@ -198,11 +198,11 @@ func (p *Program) runHarness(name string, fn *ssa.Function, o runOpts) *HarnessR
 			if res.SampleVars == nil && rec != nil {
 				res.SampleVars = rec.inputs
 			}
-			if res.Paths >= o.maxPaths && (len(queue) > 0 || active > 0) {
+			if !stopped && res.Paths >= o.maxPaths && (len(queue) > 0 || active > 0) {
 				res.Incon = append(res.Incon, fmt.Sprintf("path budget %d exhausted with %d pending", o.maxPaths, len(queue)))
 				stopped = true
 			}
-			if !o.deadline.IsZero() && time.Now().After(o.deadline) && (len(queue) > 0 || active > 0) {
+			if !stopped && !o.deadline.IsZero() && time.Now().After(o.deadline) && (len(queue) > 0 || active > 0) {
 				res.Incon = append(res.Incon, "time budget exhausted")
 				stopped = true
 			}
